@@ -535,6 +535,56 @@ def stream_bounds(run, n):
                                       fhex(kept2[i]["row"][0]), fhex(kept2[i]["row"][1])))})
 
 
+# ------------------------------------------------------------------ get_T_bnds (recorded temperature limits)
+
+TBNDS_FROM_FITS = []      # (T, n_seg, recorded limits) of fitted components, filled by stream_fits
+
+
+def tbnds_term(T, n, tc):
+    exp = "None" if tc is None else "(Some %s)" % coq_tc(tc)
+    return "(%s, %d, %s)" % (flist(T), int(n), exp)
+
+
+def stream_tbnds(run, n_cases):
+    """utilities/base_model.get_T_bnds on synthetic temperature arrays (ties, tiny arrays, every relation between the
+    segment count and the array length incl. out of bounds) and on the temperatures of the fitted components"""
+    from types import SimpleNamespace
+    from opendsm.eemeter.models.daily.utilities.base_model import get_T_bnds
+    terms, kept = [], []
+    for k in range(n_cases):
+        ln = run.rng.choice([1, 2, 5, 7, 10, 11, 12, 13, 20, 21, 40, 90])
+        grid_ = run.rng.random() < 0.5          # whole / half degrees: many ties
+        T = [(run.rng.randrange(40, 180) / 2.0) if grid_ else run.rng.uniform(-10.0, 105.0) for _ in range(ln)]
+        n = run.rng.choice([0, 1, 2, 3, 6, 10, ln // 2, ln // 2 + 1, max(ln - 1, 0), ln, ln + 1])
+        try:
+            (a, b), (c, d) = get_T_bnds(np.array(T, dtype=float), SimpleNamespace(segment_minimum_count=n))
+            tc = [float(a), float(b), float(c), float(d)]
+        except (ValueError, IndexError):
+            tc = None
+        run.count(vlib.sha(["tbnds", T, n]), ln > 1)
+        run.dist("tbnds_case", "out of bounds" if tc is None else ("2n <= len" if 2 * n <= ln else "segments overlap"))
+        if tc is not None and 2 * n <= ln:
+            # the proved facts (C12_recorded_limits_ordered / _are_fitted_days / _bound_the_days) on the implementation
+            if not (tc[0] <= tc[2] <= tc[3] <= tc[1]) or any(v not in T for v in tc) or tc[0] != min(T) or tc[1] != max(T):
+                run.violation({"stream": "tbnds", "clause": "recorded temperature limits are ordered order statistics of the fitted days",
+                               "class": "admissibility"},
+                              "C12 get_T_bnds: limits %r of %d temperatures with segment_minimum_count %d are not ordered members"
+                              % (tc, ln, n), case={"T": T, "n_seg": n}, observation={"limits": tc}, generator="c12.tbnds")
+        terms.append(tbnds_term(T, n, tc))
+        kept.append({"T": T, "n_seg": n, "impl": tc})
+    for T, n, tc in TBNDS_FROM_FITS:
+        terms.append(tbnds_term(T, n, tc))
+        kept.append({"T": T[:8], "n_seg": n, "impl": tc, "from": "fitted component", "len": len(T)})
+    bad = run.coq_cases("tbnds", IMPORTS, "", terms, "check_tbnds", shard=60)
+    if bad is None:
+        run.proof_ok = False
+        return
+    for i in bad[:5]:
+        c = kept[i]
+        mdl = run.coq_eval(IMPORTS, "", "get_T_bnds F %s %d" % (flist(c["T"]), c["n_seg"])) if "from" not in c else "(fitted component)"
+        run.corr_failures.append({"stream": "tbnds", "case": c, "impl": c["impl"], "model": mdl})
+
+
 # ------------------------------------------------------------------ from_np_arrays directly
 
 def stream_from_np(run, n):
@@ -794,6 +844,8 @@ def stream_fits(run, n, n_reused=0, n_split=0, n_weighted=0, n_knee=0):
                                   case={"dataset": ds, "component": comp}, observation={"named": obs[2], "days": want, "usage_q": q},
                                   generator="c12.fits")
             limits_of[comp] = (want, q)
+            if len(TBNDS_FROM_FITS) < 40:
+                TBNDS_FROM_FITS.append(([float(t) for t in np.asarray(res.T, float)], int(res.settings.segment_minimum_count), tc))
             if where == "model" and comp in model.params.submodels:
                 # the public prediction path on the component's baseline temperatures reproduces its fitted values
                 pub = np.asarray(model._predict_submodel(model.params.submodels[comp], np.asarray(res.T, float))[0], float)
@@ -927,7 +979,9 @@ def main():
         "get_bnds(x0) rows with every degenerate pattern (zero slopes -> [0,0], identical non-zero, [0,2x0], [2x0,0], reversed, "
         "negative, equal balance-point limits, identical quantiles, new_bnds=None) through the three *_update_bnds functions as "
         "the fit functions call them; fix_identical_bnds row by row (0, powers of ten, negatives). params_order: model.model set by hand "
-        "from synthetic components in sorted / reversed / shuffled insertion order, _create_params_from_fit_model + to_dict()")
+        "from synthetic components in sorted / reversed / shuffled insertion order, _create_params_from_fit_model + to_dict(). "
+        "tbnds: get_T_bnds on synthetic temperature arrays (ties, 1-90 values, segment count 0..len+1) and on the temperatures "
+        "of up to 40 fitted components vs the model's order statistics")
     run.assumptions += [
         "PARTIAL: the optimiser is an oracle with the contract 'returns a point of the box it was given' (Section hypothesis of "
         "the theorems); the contract is checked on every sampled fit only",
@@ -967,6 +1021,8 @@ def main():
         stream_params_order(run, run.n(24, 600))
     if os.environ.get("C12_NOFITS") != "1":
         stream_fits(run, run.n(10, 200), n_reused=run.n(3, 30), n_split=run.n(1, 12), n_weighted=run.n(2, 20), n_knee=run.n(2, 20))
+    if os.environ.get("C12_ONLYFITS") != "1" or TBNDS_FROM_FITS:
+        stream_tbnds(run, run.n(300, 20000))
     run.finish()
 
 
